@@ -135,6 +135,18 @@ def parse_const(val, ty):
         return int(m.group(1))
     if v in ("true", "false"):
         return v == "true"
+    m = re.match(r'^\*?b"(.*)"$', v, re.S)
+    if m:
+        out, body, i = [], m.group(1), 0
+        while i < len(body):
+            ch = body[i]
+            if ch == "\\" and i + 1 < len(body):
+                nx = body[i + 1]
+                if nx == "x" and i + 3 < len(body):
+                    out.append(int(body[i + 2:i + 4], 16)); i += 4; continue
+                out.append({"n": 10, "r": 13, "t": 9, "0": 0, "\\": 92, '"': 34, "'": 39}.get(nx, ord(nx))); i += 2; continue
+            out.append(ord(ch)); i += 1
+        return out
     if v.startswith('"') and v.endswith('"'):
         try:
             return json.loads(v)
